@@ -78,7 +78,7 @@ pub enum DKind {
 pub struct DataDef {
     pub name: String,
     pub kind: DKind,
-    /// `#[repr(u8)]` on an enum
+    /// `#[repr(u8)]` on an enum; `#[repr(C)]` on a struct
     pub repr_u8: bool,
 }
 
